@@ -1,5 +1,5 @@
 // Batch WebAssembly executor for vf.oracles.node (V8 as reference engine).
-// stdin : {"jobs":[{"wasm":b64,"imports":[...],"calls":[{"f":name,"args":[[t,dec],...],"ret":t|null,"snap":bool}],
+// stdin : {"jobs":[{"wasm":b64,"imports":[...],"calls":[{"f":name,"args":[[t,dec],...],"ret":t|null,"snap":bool,"pre":name?}],
 //                   "globals":[[name,t],...],"memory":name|null,"validate_only":bool}]}
 // stdout: {"results":[{"valid":bool,"stage":..,"error":..,"calls":[...],"final":{...}}]}
 // Values are [type, decimal string]: i32/i64 signed decimal, f32/f64 the IEEE bit pattern as unsigned decimal.
@@ -113,6 +113,7 @@ function runJob(job) {
     try {
       const f = inst.exports[c.f];
       if (typeof f !== 'function') throw new Error('no exported function ' + c.f);
+      if (c.pre) inst.exports[c.pre]();
       const v = f(...c.args.map(a => toJS(a[0], a[1])));
       r.v = c.ret === null || c.ret === undefined ? null : fromJS(c.ret, v);
     } catch (e) {
